@@ -7,6 +7,7 @@ import common, corr, mobs
 from common import VERIF, WORK, TARGET, log
 
 NAME = 'managed'
+PANIC_PROPS = ('C02',)   # properties whose statement excludes a panic of the pool's operations
 RULE_PREFIX = ('random thread-level label sequences on the real pool (profiles core/resize/close/mixed, '
                'SplitMix64 from VERIF_SEED) plus corpus; each replayed in the Coq model by vm_compute and '
                'compared on the projection of this property after every label; non-trivial = distinct '
@@ -22,14 +23,40 @@ def batches(tier):
     return [('core', 100, 130), ('resize', 85, 130), ('close', 55, 130), ('mixed', 55, 150), ('order', 40, 0)]
 
 
+class HarnessDied(RuntimeError):
+    """the harness process died (the pool aborted it, or the harness itself panicked); .trace = the input
+    that was being executed, recovered from a second run that echoes every label before executing it"""
+    def __init__(self, msg, trace=None):
+        RuntimeError.__init__(self, msg)
+        self.trace = trace
+
+
+def recover_input(cmd, profile):
+    env = dict(os.environ, VERIF_ECHO='1')
+    try:
+        p = subprocess.run(cmd, stdout=subprocess.DEVNULL, stderr=subprocess.PIPE, text=True, timeout=3000, env=env)
+    except Exception:   # noqa
+        return None
+    cfg, labels = None, []
+    for line in p.stderr.splitlines():
+        if line.startswith('@cfg '):
+            cfg, labels = json.loads(line[5:]), []
+        elif line.startswith('@l ') and cfg is not None:
+            labels.append(json.loads(line[3:]))
+    if cfg is None:
+        return None
+    return dict(cfg=cfg, labels=labels, profile=profile)
+
+
 def gen_traces(seed, profile, n, maxlabels):
-    p = subprocess.run([BIN, 'gen', str(seed), str(n), profile, str(maxlabels)],
-                       stdout=subprocess.PIPE, stderr=subprocess.PIPE, text=True, timeout=3000)
+    cmd = [BIN, 'gen', str(seed), str(n), profile, str(maxlabels)]
+    p = subprocess.run(cmd, stdout=subprocess.PIPE, stderr=subprocess.PIPE, text=True, timeout=3000)
     traces = [json.loads(l) for l in p.stdout.splitlines() if l.strip()]
     for t in traces:
         t['profile'] = profile
     if p.returncode != 0 or len(traces) != n:
-        raise RuntimeError('harness failed (rc %d, %d/%d traces): %s' % (p.returncode, len(traces), n, p.stderr[-500:]))
+        raise HarnessDied('harness died after %d of %d traces (rc %d) while executing the last label of the recorded '
+                          'input: %s' % (len(traces), n, p.returncode, p.stderr[-500:]), recover_input(cmd, profile))
     return traces
 
 
@@ -233,7 +260,19 @@ def monitor_trace(t, P):
     close_tasks = set()
     ops = {}
     taking = set()
+    is_h2 = t.get('kind') == 'h2'   # task level: the label's task is not the one that makes the calls
+    at_call = {}          # task -> (oid, name of the step whose outcome it is waiting for)
+    failed_step = {}      # oid -> name of the verification step that failed (C04)
     for i, (l, d) in enumerate(zip(t['labels'], P)):
+        if l[0] == 2 and l[1] in at_call:
+            # the manager / hook answers: a failure or a panic ends the verification of this object
+            oid_c, name_c = at_call.pop(l[1])
+            if l[2] != 0 and oid_c is not None:
+                failed_step[oid_c] = name_c
+        if l[0] == 3:
+            oc = at_call.pop(l[1], None)
+            if oc is not None and oc[0] is not None:
+                failed_step[oc[0]] = oc[1] + ' (cancelled)'
         if l[0] == 0:
             ops[l[1]] = l
             if l[2] in (1, 2):
@@ -258,6 +297,8 @@ def monitor_trace(t, P):
                 # unless the pool itself is gone
                 if not pool_dropped and tr.detached[e[1]] != 1 and e[1] not in tr.removed:
                     fail('C09', i, 'object %d destroyed by the pool with %d detach calls' % (e[1], tr.detached[e[1]]))
+                    if l[0] == 1 and l[1] in close_tasks and not is_h2:
+                        fail('C06', i, 'close() released idle object %d with %d detach calls' % (e[1], tr.detached[e[1]]))
             elif k == 4:
                 tr.detached[e[1]] += 1
                 if tr.detached[e[1]] > 1:
@@ -273,6 +314,8 @@ def monitor_trace(t, P):
                 tr.held.add(oid); tr.handouts[oid] += 1
                 if oid in tr.destroyed or oid in tr.removed:
                     fail('C04', i, 'object %d handed out after it was discarded' % oid)
+                if oid in failed_step:
+                    fail('C04', i, 'object %d handed out although its %s failed' % (oid, failed_step[oid]))
                 # C04: verified since last return
                 calls = since.get(oid, [])
                 if calls and calls[0][0] == 'create':
@@ -295,6 +338,10 @@ def monitor_trace(t, P):
                 if since.get(oid) is None:
                     since[oid] = []
                 since[oid].append(('recycle', 0))
+                if oid in failed_step:
+                    fail('C04', i, 'recycle() called on object %d after its %s failed' % (oid, failed_step[oid]))
+                if not is_h2:
+                    at_call[l[1]] = (oid, 'recycle check')
                 if oid in last_metrics and (e[2], e[3]) != last_metrics[oid]:
                     fail('C13', i, 'recycle() of %d saw metrics %s, last reported %s' % (oid, (e[2], e[3]), last_metrics[oid]))
             elif k == 3:
@@ -303,6 +350,11 @@ def monitor_trace(t, P):
                 if since.get(oid) is None:
                     since[oid] = []
                 since[oid].append(({0: 'pre', 2: 'post', 4: 'postcreate'}[kind], kk))
+                hname = '%s hook %d' % ({0: 'pre_recycle', 2: 'post_recycle', 4: 'post_create'}[kind], kk)
+                if oid in failed_step:
+                    fail('C04', i, '%s called on object %d after its %s failed' % (hname, oid, failed_step[oid]))
+                if not is_h2:
+                    at_call[l[1]] = (oid, hname)
                 if kind in (0, 2) and oid in last_metrics and (e[3], e[4]) != last_metrics[oid]:
                     fail('C13', i, 'hook on %d saw metrics %s, last reported %s' % (oid, (e[3], e[4]), last_metrics[oid]))
             elif k == 7:
@@ -332,6 +384,10 @@ def monitor_trace(t, P):
                     exp = (d['max'], len(d['idle']) + len(tr.held), len(d['idle']), waiting)
                     if (mx, sz, av, wt) != exp:
                         fail('C11', i, 'status at rest %s, ground truth %s' % ((mx, sz, av, wt), exp))
+                        ab = [j for j, l2 in enumerate(t['labels'][:i]) if l2[0] == 3 or (l2[0] == 2 and l2[2] == 2)]
+                        if ab:
+                            fail('C03', i, 'after the get() abandoned at step %d status() at rest reports %s, the '
+                                           'ground truth is %s' % (ab[-1], (mx, sz, av, wt), exp))
         if d['alive']:
             # counters never wrap
             for name in ('permits', 'size', 'max', 'users', 'debt'):
@@ -599,7 +655,18 @@ def run_engine(seed, tier):
 
 def replay(payload):
     tr = payload['trace']
-    traces = replay_traces([tr])
+    try:
+        traces = replay_traces([tr])
+    except RuntimeError as ex:
+        # the process died: replay all labels but the last to show the state in which the last one kills it
+        log('the harness process died while replaying the input (%d labels): %s' % (len(tr['labels']), str(ex)[-300:]))
+        log('last label: %s; the history before it:' % mobs.fmt_label(tr['labels'][-1]))
+        tr = dict(tr, labels=tr['labels'][:-1])
+        try:
+            traces = replay_traces([tr])
+        except RuntimeError as ex2:
+            log('... dies as well without the last label: %s' % str(ex2)[-300:])
+            return
     mo = model_obs(traces, tag='rp%d' % os.getpid())
     t = traces[0]
     for i, (l, o) in enumerate(zip(t['labels'], t['obs'])):
